@@ -91,4 +91,724 @@ theorem scanR_spec (a : Array (Item α)) (coord : Nat) (pv : α) :
       refine ⟨r, rfl, Nat.le_refl _, by omega, by intro j h1 h2; omega, Or.inr ⟨_, hget, ?_⟩⟩
       simpa using hc
 
+theorem partLoop_spec (coord : Nat) (pv : α) :
+    ∀ (f : Nat) (a : Array (Item α)) (l r : Nat),
+      r - l < f → l ≤ r → r + 1 ≤ a.size →
+      (∀ x ∈ a, Coord.le pv (x.key coord) = !Coord.lt (x.key coord) pv) →
+      (∀ j, j < l → ∀ x, a[j + 1]? = some x → Coord.lt (x.key coord) pv = true) →
+      (∀ j, r ≤ j → ∀ x, a[j + 1]? = some x → Coord.lt (x.key coord) pv = false) →
+      ∃ a' l', partLoop coord pv f a l r = .ok (a', l') ∧ a'.Perm a ∧ a'[0]? = a[0]? ∧
+        l' + 1 ≤ a.size ∧
+        (∀ j, j < l' → ∀ x, a'[j + 1]? = some x → Coord.lt (x.key coord) pv = true) ∧
+        (∀ j, l' ≤ j → ∀ x, a'[j + 1]? = some x → Coord.lt (x.key coord) pv = false) := by
+  intro f
+  induction f with
+  | zero => intro a l r hf; omega
+  | succ f ih =>
+    intro a l r hf hlr hb hle hlow hhigh
+    obtain ⟨l1, e1, hl1, hl1', hlow1, hstop1⟩ := scanL_spec a coord pv (r - l) l (by omega)
+    obtain ⟨r1, e2, hr1, hr1', hhigh1, hstop2⟩ := scanR_spec a coord pv (r - l1) r (by omega) hb
+    have hmem : ∀ k x, a[k]? = some x → x ∈ a := fun k x hx => Array.mem_iff_getElem?.2 ⟨k, hx⟩
+    have hlowAll : ∀ j, j < l1 → ∀ x, a[j + 1]? = some x → Coord.lt (x.key coord) pv = true := by
+      intro j hj x hx
+      by_cases hjl : j < l
+      · exact hlow j hjl x hx
+      · exact hlow1 j (by omega) hj x hx
+    have hhighAll : ∀ j, r1 ≤ j → ∀ x, a[j + 1]? = some x → Coord.lt (x.key coord) pv = false := by
+      intro j hj x hx
+      by_cases hjr : r ≤ j
+      · exact hhigh j hjr x hx
+      · have := hhigh1 j hj (by omega) x hx
+        rw [hle x (hmem _ x hx)] at this
+        simpa using this
+    simp only [partLoop, e1, e2]
+    by_cases hrl : r1 ≤ l1
+    · simp only [hrl, if_true]
+      have : r1 = l1 := by omega
+      subst this
+      exact ⟨a, r1, rfl, Array.Perm.refl _, rfl, by omega, hlowAll, hhighAll⟩
+    · simp only [hrl, if_false]
+      have hl1r : l1 ≠ l + (r - l) := by omega
+      have hr1l : r1 ≠ r - (r - l1) := by omega
+      obtain ⟨xl, hxl, hxl'⟩ := hstop1.resolve_left hl1r
+      obtain ⟨xr, hxr, hxr'⟩ := hstop2.resolve_left hr1l
+      have hxr'' : Coord.lt (xr.key coord) pv = true := by
+        have := hle xr (hmem _ xr hxr)
+        rw [hxr'] at this
+        simpa using this.symm
+      have hne : l1 + 1 ≠ r1 := by
+        intro h
+        rw [h, hxr] at hxl
+        cases hxl
+        rw [hxr''] at hxl'
+        cases hxl'
+      obtain ⟨a1, es⟩ := swapAt_isSome (a := a) (i := l1 + 1) (j := r1) (by omega) (by omega)
+      obtain ⟨_, _, hsz, hperm, hget⟩ := swapAt_spec es
+      simp only [es]
+      obtain ⟨a', l', e3, hp', h0', hb', hlow', hhigh'⟩ :=
+        ih a1 (l1 + 1) (r1 - 1) (by omega) (by omega) (by omega)
+          (fun x hx => hle x ((Array.Perm.mem_iff hperm).1 hx))
+          (by
+            intro j hj x hx
+            rw [hget] at hx
+            by_cases hj1 : j = l1
+            · subst hj1
+              simp only [if_true] at hx
+              rw [hxr] at hx; cases hx; exact hxr''
+            · have h1 : j + 1 ≠ l1 + 1 := by omega
+              have h2 : j + 1 ≠ r1 := by omega
+              simp only [h1, h2, if_false] at hx
+              exact hlowAll j (by omega) x hx)
+          (by
+            intro j hj x hx
+            rw [hget] at hx
+            by_cases hj1 : j + 1 = r1
+            · have h1 : j + 1 ≠ l1 + 1 := by omega
+              rw [if_neg h1, if_pos hj1, hxl] at hx
+              cases hx; exact hxl'
+            · have h1 : j + 1 ≠ l1 + 1 := by omega
+              simp only [h1, hj1, if_false] at hx
+              exact hhighAll j (by omega) x hx)
+      refine ⟨a', l', e3, hp'.trans hperm, ?_, by omega, hlow', hhigh'⟩
+      rw [h0', hget]
+      have h1 : 0 ≠ l1 + 1 := by omega
+      have h2 : 0 ≠ r1 := by omega
+      simp only [h1, h2, if_false]
+
+/-- `reorder_split_scalar` never leaves its arrays and returns a partition of the items
+around the pivot value.  The two order facts used are hypotheses about the values met. -/
+theorem reorderSplit_spec_aux (items : List (Item α)) (pivot coord : Nat) (p : Item α)
+    (hp : items[pivot]? = some p)
+    (hle : ∀ x ∈ items, Coord.le (p.key coord) (x.key coord) = !Coord.lt (x.key coord) (p.key coord))
+    (hirr : Coord.lt (p.key coord) (p.key coord) = false) :
+    ∃ l r, reorderSplit items pivot coord = .ok (l, r) ∧ (l ++ r).Perm items ∧
+      (∀ x ∈ l, Coord.lt (x.key coord) (p.key coord) = true) ∧
+      (∀ x ∈ r, Coord.lt (x.key coord) (p.key coord) = false) ∧ p ∈ r := by
+  have hpl : pivot < items.length := by
+    rcases Nat.lt_or_ge pivot items.length with h | h
+    · exact h
+    · rw [List.getElem?_eq_none h] at hp; cases hp
+  have hpos : 0 < items.toArray.size := by simp; omega
+  obtain ⟨a1, e1⟩ := swapAt_isSome (a := items.toArray) (i := 0) (j := pivot) hpos (by simpa using hpl)
+  obtain ⟨_, _, hsz1, hperm1, hget1⟩ := swapAt_spec e1
+  have h10 : a1[0]? = some p := by
+    rw [hget1 0]; simpa using hp
+  have hmem1 : ∀ x, x ∈ a1 ↔ x ∈ items := by
+    intro x; rw [Array.Perm.mem_iff hperm1]; simp
+  obtain ⟨a2, l', e2, hperm2, h20, hb2, hlow, hhigh⟩ :=
+    partLoop_spec coord (p.key coord) a1.size a1 0 (a1.size - 1) (by omega) (by omega) (by omega)
+      (fun x hx => hle x ((hmem1 x).1 hx)) (by intro j hj; omega)
+      (by
+        intro j hj x hx
+        rw [Array.getElem?_eq_none (by omega)] at hx; cases hx)
+  have hsz2 : a2.size = a1.size := hperm2.size_eq
+  obtain ⟨a3, e3⟩ := swapAt_isSome (a := a2) (i := 0) (j := l') (by omega) (by omega)
+  obtain ⟨_, _, hsz3, hperm3, hget3⟩ := swapAt_spec e3
+  have h2p : a2[0]? = some p := by rw [h20, h10]
+  refine ⟨a3.toList.take l', a3.toList.drop l', ?_, ?_, ?_, ?_, ?_⟩
+  · simp only [reorderSplit, e1, h10, e2, e3]
+  · rw [List.take_append_drop]
+    have := (hperm3.trans (hperm2.trans hperm1))
+    rw [Array.perm_iff_toList_perm] at this
+    simpa using this
+  · intro x hx
+    obtain ⟨k, hk⟩ := List.mem_iff_getElem?.1 hx
+    rw [List.getElem?_take] at hk
+    split at hk
+    · next hkl =>
+      rw [Array.getElem?_toList, hget3] at hk
+      by_cases hk0 : k = 0
+      · rw [if_pos hk0] at hk
+        have : l' = (l' - 1) + 1 := by omega
+        rw [this] at hk
+        exact hlow (l' - 1) (by omega) x hk
+      · have hkl' : k ≠ l' := by omega
+        rw [if_neg hk0, if_neg hkl'] at hk
+        have : k = (k - 1) + 1 := by omega
+        rw [this] at hk
+        exact hlow (k - 1) (by omega) x hk
+    · cases hk
+  · intro x hx
+    obtain ⟨i, hi⟩ := List.mem_iff_getElem?.1 hx
+    rw [List.getElem?_drop, Array.getElem?_toList, hget3] at hi
+    by_cases hk0 : l' + i = 0
+    · rw [if_pos hk0] at hi
+      have : l' = 0 := by omega
+      rw [this, h2p] at hi; cases hi; exact hirr
+    · rw [if_neg hk0] at hi
+      by_cases hkl : l' + i = l'
+      · rw [if_pos hkl, h2p] at hi; cases hi; exact hirr
+      · rw [if_neg hkl] at hi
+        have : l' + i = (l' + i - 1) + 1 := by omega
+        rw [this] at hi
+        exact hhigh (l' + i - 1) (by omega) x hi
+  · apply List.mem_iff_getElem?.2
+    refine ⟨0, ?_⟩
+    rw [List.getElem?_drop, Array.getElem?_toList, hget3]
+    by_cases hk0 : l' + 0 = 0
+    · rw [if_pos hk0]
+      have : l' = 0 := by omega
+      rw [this, h2p]
+    · rw [if_neg hk0, if_pos (by omega), h2p]
+
+theorem reorderSplit_ok_pivot {items l r : List (Item α)} {pivot coord : Nat}
+    (h : reorderSplit items pivot coord = .ok (l, r)) : ∃ p, items[pivot]? = some p := by
+  unfold reorderSplit at h
+  split at h
+  · cases h
+  · next a e =>
+    obtain ⟨_, hj, _, _, _⟩ := swapAt_spec e
+    have : pivot < items.length := by simpa using hj
+    exact ⟨items[pivot], by simp [this]⟩
+
+/-- What C03 needs from a successful `reorder_split_scalar`: a permutation, strictly
+separated.  Holds for EVERY pivot index. -/
+theorem reorderSplit_sep {S : α → Prop} (laws : OrderLawsOn S) {items l r : List (Item α)}
+    {pivot coord : Nat} (hS : ∀ x ∈ items, S (x.key coord))
+    (h : reorderSplit items pivot coord = .ok (l, r)) :
+    (l ++ r).Perm items ∧
+      ∀ x ∈ l, ∀ y ∈ r, Coord.lt (x.key coord) (y.key coord) = true := by
+  obtain ⟨p, hp⟩ := reorderSplit_ok_pivot h
+  have hpm : p ∈ items := List.mem_iff_getElem?.2 ⟨pivot, hp⟩
+  obtain ⟨l', r', e, hperm, hl, hr, _⟩ := reorderSplit_spec_aux items pivot coord p hp
+    (fun x hx => laws.le_iff _ _ (hS p hpm) (hS x hx)) (laws.irrefl _ (hS p hpm))
+  rw [h] at e
+  cases e
+  refine ⟨hperm, ?_⟩
+  intro x hx y hy
+  have hxm : x ∈ items := hperm.mem_iff.1 (List.mem_append_left _ hx)
+  have hym : y ∈ items := hperm.mem_iff.1 (List.mem_append_right _ hy)
+  exact laws.neg_trans _ _ _ (hS x hxm) (hS p hpm) (hS y hym) (hl x hx) (hr y hy)
+
+/-- Totality of `reorder_split_scalar` for an in-range pivot. -/
+theorem reorderSplit_total {S : α → Prop} (laws : OrderLawsOn S) {items : List (Item α)}
+    {pivot coord : Nat} (hS : ∀ x ∈ items, S (x.key coord)) (hp : pivot < items.length) :
+    ∃ l r, reorderSplit items pivot coord = .ok (l, r) := by
+  have hp' : items[pivot]? = some items[pivot] := by simp [hp]
+  have hpm : items[pivot] ∈ items := List.getElem_mem hp
+  obtain ⟨l', r', e, _⟩ := reorderSplit_spec_aux items pivot coord _ hp'
+    (fun x hx => laws.le_iff _ _ (hS _ hpm) (hS x hx)) (laws.irrefl _ (hS _ hpm))
+  exact ⟨l', r', e⟩
+
+/-! ## `par_rcb_split` -/
+
+/-- Every successful `par_rcb_split` returns a strictly separated permutation of its
+items – whatever pivot the search chose, whichever exit it took. -/
+theorem split_sep {S : α → Prop} (laws : OrderLawsOn S) (wt : Int → Int → Bool) (coord : Nat)
+    (sum : Int) (items : List (Item α)) (hS : ∀ x ∈ items, S (x.key coord)) :
+    ∀ (fuel it : Nat) (mn mx : α) (prev : Option Nat) (out : SplitOut α),
+      split wt coord sum items fuel it mn mx prev = .ok out →
+      (out.left ++ out.right).Perm items ∧
+        ∀ x ∈ out.left, ∀ y ∈ out.right, Coord.lt (x.key coord) (y.key coord) = true := by
+  intro fuel
+  induction fuel with
+  | zero => intro it mn mx prev out h; simp [split] at h
+  | succ fuel ih =>
+    intro it mn mx prev out h
+    simp only [split] at h
+    split at h
+    · split at h
+      · cases h
+        simp
+      · exact ih _ _ _ _ _ h
+    · next idx nd hn =>
+      split at h
+      · next e he =>
+        split at h
+        · cases h
+        · cases h
+        · next l r hr =>
+          cases h
+          exact reorderSplit_sep laws hS hr
+      · split at h
+        · exact ih _ _ _ _ _ h
+        · exact ih _ _ _ _ _ h
+
+theorem scanFold_idx (coord : Nat) (t : α) : ∀ (l : List (Item α)) (k : Nat) (st : Scan α),
+    (∀ i d, st.nearest = some (i, d) → i < k) →
+    ∀ i d, ((l.zipIdx k).foldl (scanStep coord t) st).nearest = some (i, d) → i < k + l.length := by
+  intro l
+  induction l with
+  | nil => intro k st h i d hi; simpa using h i d hi
+  | cons x xs ih =>
+    intro k st h i d hi
+    simp only [List.zipIdx_cons, List.foldl_cons] at hi
+    have := ih (k + 1) (scanStep coord t st (x, k)) (by
+      intro i d hid
+      unfold scanStep at hid
+      simp only at hid
+      split at hid
+      · have := h i d hid; omega
+      · split at hid
+        · split at hid
+          · simp at hid; omega
+          · have := h i d hid; omega
+        · split at hid
+          · simp at hid; omega
+          · have := h i d hid; omega) i d hi
+    simp only [List.length_cons]; omega
+
+/-- The pivot index found by the fold is an index of `items`. -/
+theorem scan_idx_lt (items : List (Item α)) (coord : Nat) (t : α) (i : Nat) (d : α)
+    (h : (scan items coord t).nearest = some (i, d)) : i < items.length := by
+  have := scanFold_idx coord t items 0 ⟨0, 0, none⟩ (by intro i d h; cases h) i d h
+  simpa using this
+
+/-- `par_rcb_split` performs no out-of-range access (the `unsafe` unchecked reads of
+`reorder_split_scalar` included). -/
+theorem split_no_oob {S : α → Prop} (laws : OrderLawsOn S) (wt : Int → Int → Bool) (coord : Nat)
+    (sum : Int) (items : List (Item α)) (hS : ∀ x ∈ items, S (x.key coord)) :
+    ∀ (fuel it : Nat) (mn mx : α) (prev : Option Nat),
+      split wt coord sum items fuel it mn mx prev ≠ .oob := by
+  intro fuel
+  induction fuel with
+  | zero => intro it mn mx prev h; simp [split] at h
+  | succ fuel ih =>
+    intro it mn mx prev h
+    simp only [split] at h
+    split at h
+    · split at h
+      · cases h
+      · exact ih _ _ _ _ h
+    · next idx nd hn =>
+      split at h
+      · next e he =>
+        obtain ⟨l, r, hr⟩ := reorderSplit_total laws hS (scan_idx_lt _ _ _ _ _ hn) (coord := coord)
+        rw [hr] at h
+        cases h
+      · split at h
+        · exact ih _ _ _ _ h
+        · exact ih _ _ _ _ h
+
+/-! ## `rcb_recurse` -/
+
+theorem recurse_bisection {S : α → Prop} (laws : OrderLawsOn S) (wt : Int → Int → Bool) (cfg : Cfg)
+    (key : Nat → Nat → α) :
+    ∀ (k : Nat) (items : List (Item α)) (iterId coord : Nat) (sum : Int) (lo hi : List α)
+      (t : Tree (NodeInfo α)),
+      (∀ x ∈ items, ∀ c, x.key c = key x.id c) → (∀ x ∈ items, ∀ c, S (x.key c)) →
+      recurse wt cfg k items iterId coord sum lo hi = .ok t →
+      IsBisection key cfg.dim k coord iterId t ∧ t.members.Perm (items.map (·.id)) := by
+  intro k
+  induction k with
+  | zero =>
+    intro items iterId coord sum lo hi t hk hS h
+    cases items with
+    | nil => simp [recurse] at h; subst h; simp [IsBisection, Tree.members]
+    | cons x xs => simp [recurse] at h; subst h; simp [IsBisection, Tree.members]
+  | succ k ih =>
+    intro items iterId coord sum lo hi t hk hS h
+    cases items with
+    | nil => simp [recurse] at h; subst h; simp [IsBisection, Tree.members]
+    | cons x xs =>
+      simp only [recurse] at h
+      split at h
+      · cases h
+      · cases h
+      · next r hr =>
+        obtain ⟨hperm, hsep⟩ := split_sep laws wt coord sum (x :: xs) (fun y hy => hS y hy coord)
+          _ _ _ _ _ _ hr
+        have hml : ∀ y ∈ r.left, y ∈ x :: xs := fun y hy =>
+          hperm.mem_iff.1 (List.mem_append_left _ hy)
+        have hmr : ∀ y ∈ r.right, y ∈ x :: xs := fun y hy =>
+          hperm.mem_iff.1 (List.mem_append_right _ hy)
+        split at h
+        · cases h
+        · cases h
+        · next tl hl =>
+          split at h
+          · cases h
+          · cases h
+          · next tr htr =>
+            cases h
+            obtain ⟨bl, pl⟩ := ih _ _ _ _ _ _ _ (fun y hy => hk y (hml y hy))
+              (fun y hy => hS y (hml y hy)) hl
+            obtain ⟨br, pr⟩ := ih _ _ _ _ _ _ _ (fun y hy => hk y (hmr y hy))
+              (fun y hy => hS y (hmr y hy)) htr
+            refine ⟨⟨?_, bl, br⟩, ?_⟩
+            · intro i hi j hj
+              obtain ⟨y, hy, rfl⟩ := List.mem_map.1 (pl.mem_iff.1 hi)
+              obtain ⟨z, hz, rfl⟩ := List.mem_map.1 (pr.mem_iff.1 hj)
+              rw [← hk y (hml y hy), ← hk z (hmr z hz)]
+              exact hsep y hy z hz
+            · simp only [Tree.members]
+              have := (pl.append pr)
+              rw [← List.map_append] at this
+              exact this.trans (hperm.map _)
+
+theorem recurse_no_oob {S : α → Prop} (laws : OrderLawsOn S) (wt : Int → Int → Bool) (cfg : Cfg) :
+    ∀ (k : Nat) (items : List (Item α)) (iterId coord : Nat) (sum : Int) (lo hi : List α),
+      (∀ x ∈ items, ∀ c, S (x.key c)) →
+      recurse wt cfg k items iterId coord sum lo hi ≠ .oob := by
+  intro k
+  induction k with
+  | zero =>
+    intro items iterId coord sum lo hi hS h
+    cases items with
+    | nil => simp [recurse] at h
+    | cons x xs => simp [recurse] at h
+  | succ k ih =>
+    intro items iterId coord sum lo hi hS h
+    cases items with
+    | nil => simp [recurse] at h
+    | cons x xs =>
+      simp only [recurse] at h
+      split at h
+      · next hs => exact split_no_oob laws wt coord sum (x :: xs) (fun y hy => hS y hy coord) _ _ _ _ _ hs
+      · cases h
+      · next r hr =>
+        obtain ⟨hperm, _⟩ := split_sep laws wt coord sum (x :: xs) (fun y hy => hS y hy coord)
+          _ _ _ _ _ _ hr
+        have hml : ∀ y ∈ r.left, y ∈ x :: xs := fun y hy =>
+          hperm.mem_iff.1 (List.mem_append_left _ hy)
+        have hmr : ∀ y ∈ r.right, y ∈ x :: xs := fun y hy =>
+          hperm.mem_iff.1 (List.mem_append_right _ hy)
+        split at h
+        · next hl => exact ih _ _ _ _ _ _ (fun y hy => hS y (hml y hy)) hl
+        · cases h
+        · split at h
+          · next hr' => exact ih _ _ _ _ _ _ (fun y hy => hS y (hmr y hy)) hr'
+          · cases h
+          · cases h
+
+/-! ## Leaf numbering -/
+
+theorem leaf_range {ι : Type} (key : Nat → Nat → α) (dim : Nat) (t : Tree ι) :
+    ∀ (d ax id : Nat), IsBisection key dim d ax id t →
+      ∀ pl ∈ t.leaves, 2 ^ d * (id + 1) ≤ pl.1 + 1 ∧ pl.1 + 2 ≤ 2 ^ d * (id + 2) := by
+  induction t with
+  | empty => intro d ax id _ pl hpl; simp [Tree.leaves] at hpl
+  | leaf p ids =>
+    intro d ax id h pl hpl
+    cases d with
+    | zero =>
+      simp only [IsBisection] at h
+      simp only [Tree.leaves, List.mem_singleton] at hpl
+      subst hpl; subst h
+      simp
+    | succ d => simp [IsBisection] at h
+  | node info lo hi ihl ihh =>
+    intro d ax id h pl hpl
+    cases d with
+    | zero => simp [IsBisection] at h
+    | succ d =>
+      simp only [IsBisection] at h
+      obtain ⟨_, hl, hh⟩ := h
+      simp only [Tree.leaves, List.mem_append] at hpl
+      have e1 : 2 ^ (d + 1) * (id + 1) = 2 ^ d * (2 * id + 1 + 1) := by
+        rw [Nat.pow_succ, Nat.mul_assoc]; congr 1
+      have e2 : 2 ^ (d + 1) * (id + 2) = 2 ^ d * (2 * id + 2 + 2) := by
+        rw [Nat.pow_succ, Nat.mul_assoc]; congr 1
+      have e3 : 2 ^ d * (2 * id + 1 + 2) = 2 ^ d * (2 * id + 2 + 1) := by
+        congr 1
+      have m1 : 2 ^ d * (2 * id + 1 + 1) ≤ 2 ^ d * (2 * id + 2 + 1) :=
+        Nat.mul_le_mul_left _ (by omega)
+      have m2 : 2 ^ d * (2 * id + 1 + 2) ≤ 2 ^ d * (2 * id + 2 + 2) :=
+        Nat.mul_le_mul_left _ (by omega)
+      rcases hpl with hpl | hpl
+      · have := ihl _ _ _ hl pl hpl
+        omega
+      · have := ihh _ _ _ hh pl hpl
+        omega
+
+/-- Distinct leaves carry distinct numbers: in low-to-high order they increase strictly. -/
+theorem leaves_increasing {ι : Type} (key : Nat → Nat → α) (dim : Nat) (t : Tree ι) :
+    ∀ (d ax id : Nat), IsBisection key dim d ax id t →
+      (t.leaves.map (·.1)).Pairwise (· < ·) := by
+  induction t with
+  | empty => intro d ax id _; simp [Tree.leaves]
+  | leaf p ids => intro d ax id _; simp [Tree.leaves]
+  | node info lo hi ihl ihh =>
+    intro d ax id h
+    cases d with
+    | zero => simp [IsBisection] at h
+    | succ d =>
+      simp only [IsBisection] at h
+      obtain ⟨_, hl, hh⟩ := h
+      simp only [Tree.leaves, List.map_append]
+      rw [List.pairwise_append]
+      refine ⟨ihl _ _ _ hl, ihh _ _ _ hh, ?_⟩
+      intro a ha b hb
+      obtain ⟨pa, hpa, rfl⟩ := List.mem_map.1 ha
+      obtain ⟨pb, hpb, rfl⟩ := List.mem_map.1 hb
+      have h1 := leaf_range key dim lo _ _ _ hl pa hpa
+      have h2 := leaf_range key dim hi _ _ _ hh pb hpb
+      have e3 : 2 ^ d * (2 * id + 1 + 2) = 2 ^ d * (2 * id + 2 + 1) := by
+        congr 1
+      omega
+
+/-- Two points that no axis separates lie in the same leaf. -/
+theorem same_leaf {ι : Type} (key : Nat → Nat → α) (dim : Nat) (i j : Nat)
+    (hij : ∀ c, Coord.lt (key i c) (key j c) = false ∧ Coord.lt (key j c) (key i c) = false)
+    (t : Tree ι) :
+    ∀ (d ax id : Nat), IsBisection key dim d ax id t → i ∈ t.members → j ∈ t.members →
+      ∃ pl ∈ t.leaves, i ∈ pl.2 ∧ j ∈ pl.2 := by
+  induction t with
+  | empty => intro d ax id _ hi; simp [Tree.members] at hi
+  | leaf p ids =>
+    intro d ax id _ hi hj
+    exact ⟨(p, ids), by simp [Tree.leaves], hi, hj⟩
+  | node info lo hi ihl ihh =>
+    intro d ax id h hi' hj'
+    cases d with
+    | zero => simp [IsBisection] at h
+    | succ d =>
+      simp only [IsBisection] at h
+      obtain ⟨hsep, hl, hh⟩ := h
+      simp only [Tree.members, List.mem_append] at hi' hj'
+      simp only [Tree.leaves, List.mem_append]
+      rcases hi' with hi' | hi' <;> rcases hj' with hj' | hj'
+      · obtain ⟨pl, h1, h2⟩ := ihl _ _ _ hl hi' hj'
+        exact ⟨pl, Or.inl h1, h2⟩
+      · have := hsep i hi' j hj'
+        rw [(hij ax).1] at this; cases this
+      · have := hsep j hj' i hi'
+        rw [(hij ax).2] at this; cases this
+      · obtain ⟨pl, h1, h2⟩ := ihh _ _ _ hh hi' hj'
+        exact ⟨pl, Or.inr h1, h2⟩
+
+/-! ## Writing the part ids (`scatter`, offset) -/
+
+theorem scatterFold_size (assign : List (Nat × Nat)) : ∀ (arr : Array Nat),
+    (assign.foldl (fun (a : Array Nat) (x : Nat × Nat) => a.setIfInBounds x.1 x.2) arr).size
+      = arr.size := by
+  induction assign with
+  | nil => intro arr; rfl
+  | cons x xs ih => intro arr; simp only [List.foldl_cons]; rw [ih]; simp
+
+theorem scatterFold_notin (assign : List (Nat × Nat)) (i : Nat) : ∀ (arr : Array Nat),
+    i ∉ assign.map (·.1) →
+    (assign.foldl (fun (a : Array Nat) (x : Nat × Nat) => a.setIfInBounds x.1 x.2) arr)[i]?
+      = arr[i]? := by
+  induction assign with
+  | nil => intro arr _; rfl
+  | cons x xs ih =>
+    intro arr hni
+    simp only [List.map_cons, List.mem_cons, not_or] at hni
+    simp only [List.foldl_cons]
+    rw [ih _ hni.2, Array.getElem?_setIfInBounds]
+    have : ¬ x.1 = i := fun h => hni.1 h.symm
+    simp [this]
+
+theorem scatterFold_in (assign : List (Nat × Nat)) (i p : Nat) : ∀ (arr : Array Nat),
+    (assign.map (·.1)).Nodup → (i, p) ∈ assign → i < arr.size →
+    (assign.foldl (fun (a : Array Nat) (x : Nat × Nat) => a.setIfInBounds x.1 x.2) arr)[i]?
+      = some p := by
+  induction assign with
+  | nil => intro arr _ h; cases h
+  | cons x xs ih =>
+    intro arr hnd hm hi
+    simp only [List.map_cons, List.nodup_cons] at hnd
+    simp only [List.foldl_cons]
+    rcases List.mem_cons.1 hm with hm | hm
+    · subst hm
+      rw [scatterFold_notin xs i _ hnd.1, Array.getElem?_setIfInBounds]
+      simp [hi]
+    · exact ih _ hnd.2 hm (by simpa using hi)
+
+theorem scatter_length (n : Nat) (assign : List (Nat × Nat)) : (scatter n assign).length = n := by
+  simp [scatter, scatterFold_size]
+
+theorem scatter_get (n : Nat) (assign : List (Nat × Nat)) (i p : Nat)
+    (hnd : (assign.map (·.1)).Nodup) (hm : (i, p) ∈ assign) (hi : i < n) :
+    (scatter n assign)[i]? = some p := by
+  simp only [scatter, Array.getElem?_toList]
+  exact scatterFold_in assign i p _ hnd hm (by simpa using hi)
+
+theorem assign_map_fst {ι : Type} (t : Tree ι) : t.assign.map (·.1) = t.members := by
+  induction t with
+  | empty => rfl
+  | leaf p ids =>
+    simp only [Tree.assign, Tree.members, List.map_map]
+    have : ((fun x : Nat × Nat => x.1) ∘ fun i => (i, p)) = id := rfl
+    rw [this, List.map_id]
+  | node info lo hi ihl ihh => simp [Tree.assign, Tree.members, ihl, ihh]
+
+theorem mem_assign {ι : Type} (t : Tree ι) (i p : Nat) :
+    (i, p) ∈ t.assign ↔ ∃ pl ∈ t.leaves, pl.1 = p ∧ i ∈ pl.2 := by
+  induction t with
+  | empty => simp [Tree.assign, Tree.leaves]
+  | leaf q ids =>
+    simp only [Tree.assign, Tree.leaves, List.mem_map, List.mem_singleton, Prod.mk.injEq]
+    constructor
+    · rintro ⟨a, ha, rfl, rfl⟩; exact ⟨(q, ids), rfl, rfl, ha⟩
+    · rintro ⟨pl, rfl, rfl, h⟩; exact ⟨i, h, rfl, rfl⟩
+  | node info lo hi ihl ihh =>
+    simp only [Tree.assign, Tree.leaves, List.mem_append, ihl, ihh]
+    constructor
+    · rintro (⟨pl, h1, h2⟩ | ⟨pl, h1, h2⟩)
+      · exact ⟨pl, Or.inl h1, h2⟩
+      · exact ⟨pl, Or.inr h1, h2⟩
+    · rintro ⟨pl, h1 | h1, h2⟩
+      · exact Or.inl ⟨pl, h1, h2⟩
+      · exact Or.inr ⟨pl, h1, h2⟩
+
+theorem mem_members {ι : Type} (t : Tree ι) (i : Nat) :
+    i ∈ t.members ↔ ∃ pl ∈ t.leaves, i ∈ pl.2 := by
+  induction t with
+  | empty => simp [Tree.members, Tree.leaves]
+  | leaf q ids => simp [Tree.members, Tree.leaves]
+  | node info lo hi ihl ihh =>
+    simp only [Tree.members, Tree.leaves, List.mem_append, ihl, ihh]
+    constructor
+    · rintro (⟨pl, h1, h2⟩ | ⟨pl, h1, h2⟩)
+      · exact ⟨pl, Or.inl h1, h2⟩
+      · exact ⟨pl, Or.inr h1, h2⟩
+    · rintro ⟨pl, h1 | h1, h2⟩
+      · exact Or.inl ⟨pl, h1, h2⟩
+      · exact Or.inr ⟨pl, h1, h2⟩
+
+theorem minFold_le (xs : List Nat) : ∀ (x : Nat), xs.foldl Nat.min x ≤ x ∧
+    (∀ y ∈ xs, xs.foldl Nat.min x ≤ y) ∧ (xs.foldl Nat.min x = x ∨ xs.foldl Nat.min x ∈ xs) := by
+  induction xs with
+  | nil => intro x; simp
+  | cons a as ih =>
+    intro x
+    simp only [List.foldl_cons]
+    obtain ⟨h1, h2, h3⟩ := ih (Nat.min x a)
+    have hmin : Nat.min x a ≤ x ∧ Nat.min x a ≤ a := ⟨Nat.min_le_left _ _, Nat.min_le_right _ _⟩
+    refine ⟨by omega, ?_, ?_⟩
+    · intro y hy
+      rcases List.mem_cons.1 hy with rfl | hy
+      · omega
+      · exact h2 y hy
+    · rcases h3 with h3 | h3
+      · rw [h3]
+        rcases Nat.le_total x a with h | h
+        · left; exact Nat.min_eq_left h
+        · right
+          have : Nat.min x a = a := Nat.min_eq_right h
+          rw [this]; simp
+      · right; exact List.mem_cons_of_mem _ h3
+
+theorem minNat_le (l : List Nat) : ∀ y ∈ l, minNat l ≤ y := by
+  cases l with
+  | nil => intro y h; cases h
+  | cons x xs =>
+    intro y hy
+    obtain ⟨h1, h2, _⟩ := minFold_le xs x
+    rcases List.mem_cons.1 hy with rfl | hy
+    · exact h1
+    · exact h2 y hy
+
+theorem minNat_mem (l : List Nat) (h : l ≠ []) : minNat l ∈ l := by
+  cases l with
+  | nil => exact absurd rfl h
+  | cons x xs =>
+    obtain ⟨_, _, h3⟩ := minFold_le xs x
+    simp only [minNat]
+    rcases h3 with h3 | h3
+    · rw [h3]; simp
+    · exact List.mem_cons_of_mem _ h3
+
+/-! ## `rcb` -/
+
+omit [Coord α] in
+theorem mkItems_ids (pts : List (List α)) (ws : List Int) (h : ws.length = pts.length) :
+    (mkItems pts ws).map (·.id) = List.range pts.length := by
+  simp only [mkItems, List.map_map]
+  have : ((fun x : Item α => x.id) ∘ fun x : (List α × Int) × Nat => (⟨x.2, x.1.2, x.1.1⟩ : Item α))
+      = Prod.snd := rfl
+  rw [this, List.zipIdx_map_snd, List.range_eq_range', List.length_zip, h, Nat.min_self]
+
+omit [Coord α] in
+theorem mkItems_key (pts : List (List α)) (ws : List Int) (x : Item α) (hx : x ∈ mkItems pts ws) :
+    pts[x.id]? = some x.c := by
+  simp only [mkItems, List.mem_map] at hx
+  obtain ⟨⟨⟨p, w⟩, i⟩, hm, rfl⟩ := hx
+  rw [List.mem_zipIdx_iff_getElem?] at hm
+  simp only at hm ⊢
+  rw [List.getElem?_zip_eq_some] at hm
+  exact hm.1
+
+/-- The core of C03 for `rcb` with an arbitrary bounding box. -/
+theorem runBB_bisection {S : α → Prop} (laws : OrderLawsOn S) (wt : Int → Int → Bool) (cfg : Cfg)
+    (iter : Nat) (pts : List (List α)) (ws : List Int) (plen : Nat) (lo hi : List α) (ids : List Nat)
+    (hS : ∀ p ∈ pts, ∀ c, S (p.getD c Coord.zero))
+    (h : runBB wt cfg iter pts ws plen lo hi = .ok ids) :
+    ∃ t : Tree (NodeInfo α),
+      IsBisection (ptKey pts) cfg.dim iter 0 0 t ∧
+      t.members.Perm (List.range pts.length) ∧
+      (∃ off, ∀ pl ∈ t.leaves, ∀ i ∈ pl.2, off ≤ pl.1 ∧ ids[i]? = some (pl.1 - off)) ∧
+      ids.length = pts.length ∧ ∀ v ∈ ids, v < 2 ^ iter := by
+  unfold runBB at h
+  split at h
+  · cases h
+  next hw =>
+  split at h
+  · cases h
+  next hp =>
+  have hw : ws.length = plen := Classical.byContradiction hw
+  have hp : pts.length = plen := Classical.byContradiction hp
+  split at h
+  · next hem =>
+    cases h
+    have : pts = [] := by simpa using hem
+    subst this
+    exact ⟨.empty, by simp [IsBisection], by simp [Tree.members],
+      ⟨0, by simp [Tree.leaves]⟩, rfl, by simp⟩
+  next hne =>
+  split at h
+  · cases h
+  · cases h
+  next t ht =>
+  cases h
+  have hkey : ∀ x ∈ mkItems pts ws, ∀ c, x.key c = ptKey pts x.id c := by
+    intro x hx c
+    have := mkItems_key pts ws x hx
+    simp [Item.key, ptKey, List.getD_eq_getElem?_getD, this]
+  have hS' : ∀ x ∈ mkItems pts ws, ∀ c, S (x.key c) := by
+    intro x hx c
+    have h1 := mkItems_key pts ws x hx
+    exact hS x.c (List.mem_iff_getElem?.2 ⟨_, h1⟩) c
+  obtain ⟨hb, hperm⟩ := recurse_bisection laws wt cfg (ptKey pts) iter _ _ _ _ _ _ t hkey hS' ht
+  rw [mkItems_ids pts ws (by omega)] at hperm
+  have hnd : (t.assign.map (·.1)).Nodup := by
+    rw [assign_map_fst]; exact (hperm.nodup_iff).2 List.nodup_range
+  -- every cell holds the number of its leaf
+  have hcell : ∀ pl ∈ t.leaves, ∀ i ∈ pl.2, (scatter plen t.assign)[i]? = some pl.1 := by
+    intro pl hpl i hi
+    have him : i ∈ t.members := (mem_members t i).2 ⟨pl, hpl, hi⟩
+    have hilt : i < plen := by
+      have := hperm.mem_iff.1 him
+      simp at this; omega
+    exact scatter_get plen t.assign i pl.1 hnd ((mem_assign t i pl.1).2 ⟨pl, hpl, rfl, hi⟩) hilt
+  have hall : ∀ v ∈ scatter plen t.assign, ∃ pl ∈ t.leaves, pl.1 = v := by
+    intro v hv
+    obtain ⟨i, hi⟩ := List.mem_iff_getElem?.1 hv
+    have hilt : i < plen := by
+      rcases Nat.lt_or_ge i plen with h | h
+      · exact h
+      · rw [List.getElem?_eq_none (by rw [scatter_length]; exact h)] at hi; cases hi
+    have him : i ∈ t.members := hperm.mem_iff.2 (by simp; omega)
+    obtain ⟨pl, hpl, hipl⟩ := (mem_members t i).1 him
+    have := hcell pl hpl i hipl
+    rw [this] at hi; cases hi
+    exact ⟨pl, hpl, rfl⟩
+  have hrange := leaf_range (ptKey pts) cfg.dim t iter 0 0 hb
+  have hne' : scatter plen t.assign ≠ [] := by
+    intro he
+    have hl := scatter_length plen t.assign
+    rw [he] at hl
+    have hpn : pts ≠ [] := by simpa using hne
+    cases pts with
+    | nil => exact hpn rfl
+    | cons _ _ => simp at hp hl; omega
+  refine ⟨t, hb, hperm, ⟨minNat (scatter plen t.assign), ?_⟩, ?_, ?_⟩
+  · intro pl hpl i hi
+    have hc := hcell pl hpl i hi
+    refine ⟨minNat_le _ _ (List.mem_iff_getElem?.2 ⟨i, hc⟩), ?_⟩
+    simp only [idsOfTree, List.getElem?_map, hc, Option.map_some]
+  · simp [idsOfTree, scatter_length, hp]
+  · intro v hv
+    simp only [idsOfTree, List.mem_map] at hv
+    obtain ⟨u, hu, rfl⟩ := hv
+    obtain ⟨pl, hpl, rfl⟩ := hall u hu
+    obtain ⟨pm, hpm, hpme⟩ := hall _ (minNat_mem _ hne')
+    have r1 := hrange pl hpl
+    have r2 := hrange pm hpm
+    rw [← hpme]
+    have : 2 ^ iter * (0 + 2) = 2 ^ iter + 2 ^ iter := by omega
+    omega
+
 end Coupe.Rcb
